@@ -257,7 +257,8 @@ PROPS = {
         "rules": R(DL.lk0_blocking_acquisitions, DL.l1_lock_order, DL.l2_wait_for, E.e6_reducer_never_enqueues,
                    T.st1_stop_is_close_plus_join, Q.q4_close, T.st3_loop_exits,
                    r(S.cb1_callbacks_hold_no_reentrant_lock, only=r"no-state-lock|floor"),
-                   C.ch1_arm_purity, r(X.it_iterator, only=r"feeder-forwards-once:on_unsubscribe")),
+                   C.ch1_arm_purity, r(X.it_iterator, only=r"feeder-forwards-once:on_unsubscribe"),
+                   r(S.su3_shutdown_release, only=r"every-exit-releases|floor:clear")),
         "explanation": "Static deadlock analysis on context-sensitive inlined call graphs rooted at every entry point of every thread role (client API, reducer thread, pool jobs, channeled thread, iterator consumer), with class-hierarchy resolution of dyn calls into the crate's impls and the property's own model of user callbacks: the lock-order graph is acyclic without self edges (L1); no blocking send/recv/join is performed while holding a lock the unblocking party takes, no role blocks on a channel only it consumes, joined threads are disconnected first (L2, E6); the thread stop() joins is guaranteed its Exit: stop() closes first, close() enqueues Exit under a blocking lock on every path, the loop leaves on Exit (ST1,Q4,ST3). Premises about the leaf wrapper and the joined threads: drop arms never block, the blocking arm is one blocking send (CH1), stop() closes first, close() enqueues Exit on every path and the loop leaves on it (ST1,Q4,ST3), the iterator is released by a blocking Exit send (IT2), callbacks never run under the state lock (CB1).",
         "not_decided": ["progress inside crossbeam/rusty_pool/std", "a client thread playing two roles itself", "the 3 s timeout masking a hang"],
     },
@@ -274,7 +275,7 @@ PROPS = {
         "exhaustive": True,
     },
     "C15": {
-        "rules": R(r(DL.lk0_blocking_acquisitions, only=r"StoreImpl\\.(sender-slot|pool-slot|subscriber-list)|all-acquisitions|floor"), X.ds_droppable, T.st1_stop_is_close_plus_join, Q.q4_close, T.st2_closed_means_err, S.su3_shutdown_release, T.st3_loop_exits,
+        "rules": R(Q.q3_enqueue_under_sender_lock, r(DL.lk0_blocking_acquisitions, only=r"StoreImpl\\.(sender-slot|pool-slot|subscriber-list)|all-acquisitions|floor"), X.ds_droppable, T.st1_stop_is_close_plus_join, Q.q4_close, T.st2_closed_means_err, S.su3_shutdown_release, T.st3_loop_exits,
                    r(C.ch1_arm_purity, only=r"drop-latest-never-dequeues|paths-complete"), r(X.ch_channeled_release, name="R2")),
         "explanation": "Static decision: Drop for DroppableStore calls StoreImpl::stop on the wrapped Arc on every path, unconditionally (DS1), Deref hands out that same Arc (DS2), and stop() has the barrier/finality premises of C04 (ST1,Q4,ST2,ST3,SU3). The DropLatest arm never evicts a queued action for Exit (CH1); channeled release disconnects then joins (R2).",
         "not_decided": ["as C04"],
@@ -300,7 +301,7 @@ PROPS = {
     },
     "C19": {
         "rules": R(IN.in1_no_process_wide_state, IN.in2_fresh_resources, IN.in3_handles_stay_home, IN.in4_public_subscribers_have_no_lifecycle_state, IN.in5_shared_callbacks_never_skip_on_contention, IN.in6_shareable_callbacks_own_no_new_shared_state,
-                   r(S.cb1_callbacks_hold_no_reentrant_lock, only=r"no-state-lock|floor"),
+                   S.cb1_callbacks_hold_no_reentrant_lock,
                    Q.d1_same_store_dispatcher, ME.me9_one_metrics_object),
         "explanation": "Non-interference by separation, all static: no static/thread_local/unsafe/process-global API, third-party callees instance-scoped (IN1); every per-store resource is created in the constructor call (IN2,ME9); handles capture their own store's list, dispatchers wrap their own store, wrappers own their own channel, the name is only formatted (IN3,SU2,D1). Exported callback types never try_lock (IN5) and own no interior-mutable state outside the confirmed table (IN6); no callback runs under the state lock, so another store's callback may read this store's state (CB1).",
         "not_decided": ["global state inside the dependencies", "CPU contention"],
